@@ -15,8 +15,11 @@ mkdir -p "$BUILD"
 trap 'rm -rf "$BUILD"' EXIT
 export VERIF_WORKDIR="$BUILD"
 
+REPO="${VERIF_REPO:-/repo}"   # the tree under test; VERIF_REPO points the self-test at a scratch worktree
+
 build() { # $1 = extra go build flags
-  (cd "$ROOT/harness" && cp /repo/go.sum go.sum 2>/dev/null; go build -tags verif $1 -o "$BUILD/vcheck" ./cmd/vcheck) || { echo "build failed" >&2; exit 64; }
+  sed "s#=> /repo#=> $REPO#" "$ROOT/harness/go.mod" > "$BUILD/go.mod" && cp "$REPO/go.sum" "$BUILD/go.sum" || { echo "build failed (module files)" >&2; exit 64; }
+  (cd "$ROOT/harness" && go build -modfile="$BUILD/go.mod" -tags verif $1 -o "$BUILD/vcheck" ./cmd/vcheck) || { echo "build failed" >&2; exit 64; }
 }
 
 case "$cmd" in
